@@ -157,4 +157,4 @@ META = {
     "assumptions": ["Source::next_u64n replaced by a stub drawing one arbitrary word (its 4-line body is read, not executed)", "Gaussian draw replaced by an arbitrary f64 through the real generic znx_*_dist_f64_ref; the *_normal_* copies of that loop are covered for position/scale only"],
     "stubs": ["poulpy_hal::source::Source::next_u64n", "znx_fill_normal_f64_ref / znx_add_normal_f64_ref (position harness only)", "f64::exp2 / f64::log2 (exact / constant)", "std::fmt::format", "take_slice_aligned (private, hal_defaults/scratch.rs) replaced by a copy deriving the 64-byte padding from the window offset inside the aligned harness arena instead of the pointer integer (same function on these arenas; the real one is decided by C12 scratch.take_slice*)"],
 }
-THOROUGH_SAMPLE = 6
+THOROUGH_SAMPLE = 80
